@@ -632,3 +632,17 @@ func samePlacement(p1 *placement, p2 *placement) bool
   requires p1 != nil && p2 != nil
   ensures C20_same: result <==> (p1.id == p2.id && p1.col == p2.col && p1.row == p2.row && p1.w == p2.w && p1.h == p2.h)
 @*/
+
+/*@
+-- Characters: every element is a non-empty grapheme cluster (a tab becomes eight spaces); the result is a new slice
+freshresult Characters
+func Characters(s string) []Character
+  modifies nothing
+  loop 1 preserves old
+  loop 2 preserves old
+  -- (the slice being built was allocated by this call)
+  loop 1 invariant ne: len(s) >= 0 && backing(egcs) >= old(brk()) && (forall k in 0..len(egcs): len(egcs[k].Grapheme) > 0)
+  loop 1 decreases len(s)
+  loop 2 invariant ne: 0 <= i && i <= 8 && len(s) >= 0 && backing(egcs) >= old(brk()) && (forall k in 0..len(egcs): len(egcs[k].Grapheme) > 0)
+  ensures C17_nonempty: forall k in 0..len(result): len(result[k].Grapheme) > 0
+@*/
